@@ -6,7 +6,10 @@ rationals of the doubles).  The model has two string decoders (`cur` = current p
 repo_patches/C28_quotes.diff); which one the implementation has is probed on every run and recorded.
 Search oracle (independent of the model): `pl2py(py2pl(v))` must be `v` (type-strict) for every generated value
 without length-one tuples; exported functions called from generated programs must be seen with exactly their
-Python result.  Failing values are shrunk and classified by the model's `why` (proved sound in Lean)."""
+Python result.  Failing values are shrunk and classified by the model's `why` (proved sound in Lean).
+Stream "signatures" (harness/extern_util.py): generated problog_export / _nondet / _raw declarations called with every
+output unbound / bound to the right value / bound to a wrong value / partially bound; oracle "an answer iff every bound
+output unifies with the converted result", and the Lean model of the wrapper (ProbLogModel/Extern.lean) on the ground calls."""
 import json
 import math
 import os
@@ -16,6 +19,7 @@ import types
 
 from lib import Infra, q
 import pypl_util as U
+import extern_util as E
 
 MODULE = "ProbLogProofs.Properties.C28"
 THEOREMS = [
@@ -25,6 +29,8 @@ THEOREMS = [
     "ProbLogProofs.C28.C28_current_strings_good",
     "ProbLogProofs.C28.C28_export_list_roundtrip",
     "ProbLogProofs.C28.C28_why_ok_roundtrip",
+    "ProbLogProofs.C28.C28_export_decision",
+    "ProbLogProofs.C28.C28_export_nondet_decision",
 ]
 REFUTATIONS = [
     "ProbLogProofs.C28.C28_quotes_refuted",
@@ -33,6 +39,7 @@ REFUTATIONS = [
     "ProbLogProofs.C28.C28_trailing_tuple_flattened",
     "ProbLogProofs.C28.C28_float_precision_refuted",
     "ProbLogProofs.C28.C28_singleton_tuple",
+    "ProbLogProofs.C28.C28_export_reversed_bit_refuted",
 ]
 
 MANIFEST = {
@@ -40,7 +47,8 @@ MANIFEST = {
     "technique": "Lean 4 theorems about a hand-written model of pypl.py (py2pl/pl2py), list2term/term2list and "
                  "Constant's float rounding + exact correspondence of model and implementation on generated nested "
                  "values and terms + independent round-trip oracle on the real code + exported functions called "
-                 "from generated programs",
+                 "from generated programs + model of the problog_export wrapper's call-mode / unification loop with "
+                 "generated signatures and binding patterns",
     "text": "Lean theorems: pl2py(py2pl(v)) = v for every plain value in the decidable domain `good` (ints, floats "
             "with at most 15 decimals, strings restored by the string decoder, lists, tuples of length != 1 whose "
             "last element is not a tuple of length >= 2), term2list(list2term(xs)) = xs on the same domain, and "
@@ -48,11 +56,18 @@ MANIFEST = {
             "strings for the current decoder, trailing nested tuple, floats beyond 15 decimals). Every run compares "
             "model and implementation exactly on generated values/terms, searches for round-trip failures on the "
             "real code with an independent oracle, classifies shrunk failures with the model's (proved sound) "
-            "domain classifier, and calls problog_export functions from generated programs.",
+            "domain classifier, and calls problog_export functions from generated programs. Wrapper of problog_export / "
+            "_nondet / _raw (Lean model of _extract_callmode + check_mode + the unification loop): a call whose bound "
+            "outputs have the declared types has an answer iff every bound output equals the converted result, with "
+            "exactly the converted results (C28_export_decision, C28_export_nondet_decision); every run calls generated "
+            "signatures (1-3 inputs, 1-3 outputs of int/float/str/list/term) with each output unbound / bound right / "
+            "bound wrong / partially bound, directly and through program text, against a Python oracle and the model.",
     "note": "Trusted: Lean kernel, standard axioms, harness and driver glue. The model is hand-written and tied to "
             "the code on the generated inputs only. ValueError branches (unsupported Python type, None) are outside "
             "the model's input types and checked on the real code only. Round-trip domain is exact for 'plain' "
-            "values; Term objects passed through py2pl are covered by the correspondence, not by the theorem.",
+            "values; Term objects passed through py2pl are covered by the correspondence, not by the theorem. "
+            "The wrapper model treats call arguments as unbound or ground (unification = equality); partially bound "
+            "outputs are checked against the Python oracle only.",
     "design_ref": "DESIGN.md §6 C28",
 }
 
@@ -459,10 +474,12 @@ def run(ctx):
     # ------------------------------------------------------------------ inputs
     if ctx.replay_in:
         rep = json.load(open(ctx.replay_in))["replay"]
+        if rep.get("kind") == "export-sig":
+            rep = dict(rep, value_sexp="(i 0)")
         if "value_sexp" not in rep:
             raise Infra("replay file without an encodable value")
         rv = U.dec_val(U.parse_sexp(rep["value_sexp"]))
-        values = [rv] if rep.get("kind") != "export" else []
+        values = [rv] if rep.get("kind") not in ("export", "export-sig") else []
         terms = []
         programs = [[(rep["function"], rv)]] if rep.get("kind") == "export" else []
     else:
@@ -559,9 +576,20 @@ def run(ctx):
     # ------------------------------------------------------------------ exported functions
     elines, eexpect, ediffs = run_programs(ctx, drv, variant, programs, report) if programs else ([], [], [])
 
+    # ------------------------------------------------------------------ generated signatures / binding patterns
+    if ctx.replay_in:
+        sig_replay = rep if rep.get("kind") == "export-sig" else None
+        slines, simpl, swhat = E.run_stream(ctx, None, 0, replay=sig_replay) if sig_replay else ([], [], [])
+    else:
+        slines, simpl, swhat = E.run_stream(ctx, ctx.sub_rng("signatures"), ctx.budget(14, 250))
+
     # ------------------------------------------------------------------ model side
     first_diff = None
     if drv is not None:
+        smodel = drv.run(slines)
+        for k in range(len(slines)):
+            if U.canon(smodel[k]) != U.canon(simpl[k]) and first_diff is None:
+                first_diff = ("wrapper of " + swhat[k], smodel[k], simpl[k])
         model = drv.run(lines + elines + ["why %s %s" % (variant, U.enc_val(p[0])) for p in pending])
         for k in range(len(lines)):
             if U.canon(model[k]) != U.canon(impl[k]) and first_diff is None:
@@ -585,8 +613,8 @@ def run(ctx):
         report("%s  [model classification: %s]" % (desc, shape), replay, {"kind": "value-changed", "via": via, "shape": shape})
     if first_diff:
         ctx.disagree("PyPl model vs problog.pypl", "%s: model %s, implementation %s" % first_diff)
-    ctx.obligation("correspondence: model(%s) = implementation on %d values, %d terms, %d exported results"
-                   % (variant, len(values), len(terms), len(eexpect)), first_diff is None and drv is not None,
+    ctx.obligation("correspondence: model(%s) = implementation on %d values, %d terms, %d exported results, %d wrapper calls"
+                   % (variant, len(values), len(terms), len(eexpect), len(slines)), first_diff is None and drv is not None,
                    "" if first_diff is None else "first difference: %s" % first_diff[0])
     ctx.extra["string_decoder_variant"] = variant
     ctx.extra["roundtrip_failures_seen"] = nfail
